@@ -529,6 +529,17 @@ def rule_sanitiser(repo: Repo) -> List[Ob]:
         why = ("sanitised names are made unique against the program names already given (the values of the mapping)" if uniq else
                f"uniqueness is tested against `{src(a0)}`, not against the program names already given: `rain-y` and `Rainy` both become `rainy` and share one program variable")
     obs.append(Ob("C-sanitiser", "bayesnet/code_generator.py::__generate_mapping__::unique", f.relpath, ucalls[0].lineno if ucalls else f.node.lineno, f.qualname, uniq, why))
+    # generated names are also kept clear of the names the CAS reads as constants (e, pi, oo): the program parser refuses them as
+    # variables (and before it did, `e == 1` silently spoke about Euler's number)
+    const_tests = [x for x in walk_no_nested(fx) if (isinstance(x, ast.Attribute) and x.attr in ("is_Symbol", "is_symbol")) or
+                   (isinstance(x, ast.Compare) and len(x.ops) == 1 and isinstance(x.ops[0], (ast.In, ast.NotIn)) and re.search(r"(?i)reserved|constant|keyword", src(x.comparators[0])))]
+    keyc = "bayesnet/code_generator.py::__generate_mapping__::constants"
+    if const_tests:
+        obs.append(Ob("C-sanitiser", keyc, f.relpath, const_tests[0].lineno, f.qualname, True, "sanitised names that the CAS reads as constants are altered before use"))
+    else:
+        obs.append(Ob("C-sanitiser", keyc, f.relpath, line, f.qualname, False,
+                      "sanitised names are not tested against the constants of the CAS: a network variable `E` becomes the program variable `e`, which the program parser refuses "
+                      "(it denotes Euler's number in every right-hand side and condition)"))
     # query helper names are made unique against the same program names
     for rp2 in ("bayesnet/query/exact_inference_query.py", "bayesnet/query/sampling_time_query.py"):
         for g in [x for x in repo.functions if x.relpath == rp2]:
